@@ -362,8 +362,9 @@ def judge(T):
         V.append(_viol("C13", cl, T, cl, txt))
     S = action_targets(a)
     if kind == "measure":
-        S = sorted(set(S) | set(s for s, _ in (res.value if isinstance(res.value, list) else [])
-                                if s in o0.sub))
+        # the *specified* measured set (largest acceptable reading), not what the implementation chose to measure
+        spec_sets = T.exp.get("measured_sets") or [S]
+        S = sorted(set(S) | set(x for st in spec_sets for x in st if x in o0.sub))
     if kind == "povm" and isinstance(res.value, tuple) and isinstance(res.value[1], list):
         S = sorted(set(S) | set(s for s, _ in res.value[1] if s in o0.sub))
     if kind not in ("set_contraction", "slot_new"):
@@ -499,6 +500,11 @@ def _judge_measurement(T):
         if bad:
             V.append(_viol("C04" if kind == "measure" else "C09", "dist", T, "bad-distribution", f"draw {i}: {bad}"))
             return V
+    keys_used = [c["key"] for c in calls]
+    if len(set(keys_used)) != len(keys_used):
+        V.append(_viol("C04" if kind == "measure" else "C09", "dist", T, "key-reused-within-call",
+                       f"{len(keys_used) - len(set(keys_used))} of the {len(keys_used)} draws of this call used a key that was already used: "
+                       "the outcomes are not independent draws from the conditional distributions"))
     if kind == "measure":
         pairs = res.value
         if not isinstance(pairs, list):
